@@ -575,7 +575,6 @@ func c06RunScenario(m *vk.M, rig *c06Rig, idx int, sc c06Scenario) (ok bool, sta
 	ops := append([]c06Op(nil), sc.Ops...)
 	sort.SliceStable(ops, func(i, j int) bool { return ops[i].Start < ops[j].Start })
 	next := 0
-	t0 := atomic.LoadInt64(&rig.tick)
 	const maxTicks = 20000
 	for rel := 0; rel < maxTicks; rel++ {
 		for next < len(ops) && ops[next].Start <= rel {
@@ -609,7 +608,6 @@ func c06RunScenario(m *vk.M, rig *c06Rig, idx int, sc c06Scenario) (ok bool, sta
 			return true, x.stats
 		}
 		if settled && next == len(ops) {
-			_ = t0
 			return true, x.stats
 		}
 	}
